@@ -212,6 +212,7 @@ func (s *State) top() *Frame { return s.frames[len(s.frames)-1] }
 
 type Ctx struct {
 	dbgLast      int
+	extraContractVars map[string]Val
 	extraMods    []modEntry
 	havocAllDeclared bool // the havocAll in progress comes from an explicit "modifies everything" clause
 	curBatch     string
@@ -508,6 +509,10 @@ func (c *Ctx) strLit(v string) string {
 	c.strLits[v] = n
 	c.decls = append(c.decls, fmt.Sprintf("(declare-const %s Str) ; %q", n, truncate(v, 40)))
 	c.decls = append(c.decls, fmt.Sprintf("(assert (= (strlen %s) %s))", n, c.ar.idx(int64(len(v)))))
+	if v == "" {
+		// the empty string is the only string of length 0
+		c.decls = append(c.decls, fmt.Sprintf("(assert (forall ((s Str)) (! (=> (= (strlen s) %s) (= s %s)) :pattern ((strlen s)))))", c.ar.idx(0), n))
+	}
 	// distinctness from other literals
 	for o, on := range c.strLits {
 		if o != v {
